@@ -15,6 +15,7 @@ package mapping_test
 // correctly rounded float).
 
 import (
+	"bufio"
 	"context"
 	"encoding/json"
 	"fmt"
@@ -734,14 +735,9 @@ func panicClass(msg string) string {
 }
 
 // judge: is the result of one call a member of the allowed set of the case?
-func judge(c *c05Case, api, via string, r c05Result, input string) *c05Bad {
-	tk := "json"
-	for _, k := range []string{"form", "path", "header", "map"} {
-		if strings.HasSuffix(via, ":"+k) {
-			tk = strings.Replace(k, "map", "key", 1)
-		}
-	}
-	where := fmt.Sprintf("%s(%s) into %s", api, input, describeAs(tk, c.Fields))
+func judge(c *c05Case, api, tk string, r c05Result, input string) *c05Bad {
+	via := c.Src // the key names the class of failure and the source class, not the shape or the API
+	where := fmt.Sprintf("%s [%s] (%s) into %s", api, c.Family, input, describeAs(tk, c.Fields))
 	switch r.class() {
 	case "panic":
 		return &c05Bad{"C05:panic:" + panicClass(r.Panic) + ":" + via, fmt.Sprintf("%s panicked: %s", where, r.Panic)}
@@ -832,7 +828,6 @@ func (rn *c05Runner) runTyped(c *c05Case) (bads []*c05Bad, results []c05Result, 
 	if err != nil {
 		return []*c05Bad{{"infra", err.Error()}}, nil, 0
 	}
-	via := c.Family
 	add := func(api string, r c05Result, input string, v string) {
 		n++
 		results = append(results, r)
@@ -843,11 +838,11 @@ func (rn *c05Runner) runTyped(c *c05Case) (bads []*c05Bad, results []c05Result, 
 	}
 	js := renderJSON(c.Fields, "exact")
 	rJSON := c05Call(tJSON, func(v any) error { return mapping.UnmarshalJsonBytes([]byte(js), v) })
-	add("mapping.UnmarshalJsonBytes", rJSON, js, via+":json")
+	add("mapping.UnmarshalJsonBytes", rJSON, js, "json")
 
 	m := renderMap(c.Fields)
 	rKey := c05Call(tKey, func(v any) error { return mapping.UnmarshalKey(m, v) })
-	add("mapping.UnmarshalKey", rKey, js, via+":map")
+	add("mapping.UnmarshalKey", rKey, js, "key")
 
 	var rYAML c05Result
 	ys := renderYAML(c.Fields, "")
@@ -856,9 +851,9 @@ func (rn *c05Runner) runTyped(c *c05Case) (bads []*c05Bad, results []c05Result, 
 	}
 	if c.Yaml {
 		rYAML = c05Call(tJSON, func(v any) error { return mapping.UnmarshalYamlBytes([]byte(ys), v) })
-		add("mapping.UnmarshalYamlBytes", rYAML, strconv.Quote(ys), via+":yaml")
+		add("mapping.UnmarshalYamlBytes", rYAML, strconv.Quote(ys), "json")
 		if !c.Out.Any && rJSON.class() == "val" && rYAML.class() == "val" && !sameStruct(rJSON, rYAML) {
-			bads = append(bads, &c05Bad{"C05:json-yaml-differ:" + via, fmt.Sprintf("the same content into %s: JSON %s gives %s, YAML %q gives %s",
+			bads = append(bads, &c05Bad{"C05:json-yaml-differ", fmt.Sprintf("the same content into %s: JSON %s gives %s, YAML %q gives %s",
 				describe(c.Fields), js, render(rJSON.Val.Elem()), ys, render(rYAML.Val.Elem()))})
 		}
 	}
@@ -867,21 +862,21 @@ func (rn *c05Runner) runTyped(c *c05Case) (bads []*c05Bad, results []c05Result, 
 	for _, sp := range []string{"exact", "snake", "initial"} {
 		cj := renderJSON(c.Fields, sp)
 		r := c05Call(tJSON, func(v any) error { return conf.LoadFromJsonBytes([]byte(cj), v) })
-		add("conf.LoadFromJsonBytes["+sp+"]", r, cj, via+":conf-"+sp)
+		add("conf.LoadFromJsonBytes["+sp+"]", r, cj, "json")
 		confRes = append(confRes, r)
 	}
 	for i := 1; i < len(confRes); i++ {
 		a, b := confRes[0], confRes[i]
 		if a.class() == "val" && b.class() == "val" && !sameStruct(a, b) {
-			bads = append(bads, &c05Bad{"C05:spelling-differ:" + via, fmt.Sprintf("conf.LoadFromJsonBytes into %s: exact keys give %s, respelt keys (%s) give %s",
+			bads = append(bads, &c05Bad{"C05:spelling-differ", fmt.Sprintf("conf.LoadFromJsonBytes into %s: exact keys give %s, respelt keys (%s) give %s",
 				describe(c.Fields), render(a.Val.Elem()), renderJSON(c.Fields, []string{"exact", "snake", "initial"}[i]), render(b.Val.Elem()))})
 		}
 	}
 	if c.Yaml {
 		r := c05Call(tJSON, func(v any) error { return conf.LoadFromYamlBytes([]byte(ys), v) })
-		add("conf.LoadFromYamlBytes", r, strconv.Quote(ys), via+":conf-yaml")
+		add("conf.LoadFromYamlBytes", r, strconv.Quote(ys), "json")
 		if !c.Out.Any && confRes[0].class() == "val" && r.class() == "val" && !sameStruct(confRes[0], r) {
-			bads = append(bads, &c05Bad{"C05:json-yaml-differ:" + via, fmt.Sprintf("conf: the same content into %s: JSON %s gives %s, YAML %q gives %s",
+			bads = append(bads, &c05Bad{"C05:json-yaml-differ", fmt.Sprintf("conf: the same content into %s: JSON %s gives %s, YAML %q gives %s",
 				describe(c.Fields), js, render(confRes[0].Val.Elem()), ys, render(r.Val.Elem()))})
 		}
 	}
@@ -890,7 +885,6 @@ func (rn *c05Runner) runTyped(c *c05Case) (bads []*c05Bad, results []c05Result, 
 
 func (rn *c05Runner) runText(c *c05Case) (bads []*c05Bad, results []c05Result, n int) {
 	vals := renderText(c.Fields)
-	via := c.Family
 	add := func(api string, r c05Result, input string, v string) {
 		n++
 		results = append(results, r)
@@ -911,10 +905,10 @@ func (rn *c05Runner) runText(c *c05Case) (bads []*c05Bad, results []c05Result, n
 	}
 	add("httpx.ParseForm", c05Call(tForm, func(v any) error {
 		return httpx.ParseForm(httptest.NewRequest(http.MethodGet, "/x?"+q.Encode(), nil), v)
-	}), input, via+":form")
+	}), input, "form")
 	add("httpx.Parse[form]", c05Call(tForm, func(v any) error {
 		return httpx.Parse(httptest.NewRequest(http.MethodGet, "/x?"+q.Encode(), nil), v)
-	}), input, via+":form")
+	}), input, "form")
 	// path
 	tPath, err := c05StructType("path", c.Fields, false)
 	if err != nil {
@@ -922,7 +916,7 @@ func (rn *c05Runner) runText(c *c05Case) (bads []*c05Bad, results []c05Result, n
 	}
 	add("httpx.ParsePath", c05Call(tPath, func(v any) error {
 		return httpx.ParsePath(pathvar.WithVars(httptest.NewRequest(http.MethodGet, "/x", nil), vals), v)
-	}), input, via+":path")
+	}), input, "path")
 	// header
 	tHdr, err := c05StructType("header", c.Fields, false)
 	if err != nil {
@@ -934,7 +928,7 @@ func (rn *c05Runner) runText(c *c05Case) (bads []*c05Bad, results []c05Result, n
 			r.Header.Set(k, v)
 		}
 		return httpx.ParseHeaders(r, v)
-	}), input, via+":header")
+	}), input, "header")
 	return
 }
 
@@ -1042,8 +1036,87 @@ func (rn *c05Runner) runRoundTrip(c *c05Case) (bads []*c05Bad, results []c05Resu
 	return nil, results, n
 }
 
+// checkAxioms re-derives the numeric facts the specification takes as given.  A mismatch is an
+// error of the specification (Infra), never a verdict about the code.
+func checkAxioms(m kit.M) string {
+	exact := func(text string) *big.Float {
+		f, _, err := big.ParseFloat(text, 10, 4000, big.ToNearestEven)
+		if err != nil {
+			return nil
+		}
+		return f
+	}
+	pts := kit.List(m["points"])
+	for i := 1; i < len(pts); i++ {
+		a, b := exact(kit.Str(pts[i-1])), exact(kit.Str(pts[i]))
+		if a == nil || b == nil || a.Cmp(b) >= 0 {
+			return fmt.Sprintf("Points not increasing at %v < %v", pts[i-1], pts[i])
+		}
+	}
+	isPoint := map[string]bool{}
+	for _, p := range pts {
+		isPoint[kit.Str(p)] = true
+	}
+	for _, x := range kit.List(m["lits"]) {
+		l := x.(kit.M)
+		text, at := kit.Str(l["text"]), kit.Str(l["at"])
+		if at == "" {
+			continue
+		}
+		v, a := exact(text), exact(at)
+		if v == nil || a == nil || v.Cmp(a) != 0 || !isPoint[at] {
+			return fmt.Sprintf("literal %s: at=%s is not its value / not a point", text, at)
+		}
+		if v.IsInt() != kit.Bool(l["integral"]) {
+			return fmt.Sprintf("literal %s: integral=%v", text, l["integral"])
+		}
+		if kit.Str(l["syn"]) == "int" && text != at {
+			return fmt.Sprintf("literal %s: int syntax but at=%s", text, at)
+		}
+		for _, bits := range []int{32, 64} {
+			r, err := strconv.ParseFloat(text, bits)
+			if err != nil { // out of range of the float kind: exactness is not used
+				continue
+			}
+			isExact := new(big.Float).SetPrec(4000).SetFloat64(r).Cmp(v) == 0
+			if want := kit.Str(l[fmt.Sprintf("f%d", bits)]) == "exact"; want != isExact {
+				return fmt.Sprintf("literal %s: f%d=%v but exactly representable=%v", text, bits, l[fmt.Sprintf("f%d", bits)], isExact)
+			}
+		}
+	}
+	ref := map[string][2]string{
+		"int8": {"-128", "127"}, "int16": {"-32768", "32767"}, "int32": {"-2147483648", "2147483647"},
+		"int64": {"-9223372036854775808", "9223372036854775807"}, "int": {strconv.Itoa(-1 << (strconv.IntSize - 1)), strconv.Itoa(1<<(strconv.IntSize-1) - 1)},
+		"uint8": {"0", "255"}, "uint16": {"0", "65535"}, "uint32": {"0", "4294967295"},
+		"uint64": {"0", "18446744073709551615"}, "uint": {"0", strconv.FormatUint(^uint64(0)>>(64-strconv.IntSize), 10)},
+	}
+	b := m["bounds"].(kit.M)
+	for k, want := range ref {
+		kb, ok := b[k].(kit.M)
+		if !ok || kit.Str(kb["lo"]) != want[0] || kit.Str(kb["hi"]) != want[1] {
+			return fmt.Sprintf("bounds of %s: specification %v, Go %v", k, b[k], want)
+		}
+	}
+	for _, f := range [][2]string{{"-3.4028235e38", "3.4028235e38"}} { // the float32 fence of FitsFloat
+		for _, t := range f {
+			if r, err := strconv.ParseFloat(t, 32); err != nil || r > 3.4028234663852886e38 || r < -3.4028234663852886e38 {
+				return "float32 fence " + t + " is not finite in float32"
+			}
+		}
+	}
+	return ""
+}
+
 func (rn *c05Runner) runCase(kc kit.Case) kit.Verdict {
 	v := kit.Verdict{Case: kc.Index, OK: true}
+	if kit.Str(kc.Steps[0]["family"]) == "axioms" {
+		if bad := checkAxioms(kc.Steps[0]); bad != "" {
+			return kit.Verdict{Case: kc.Index, Infra: true, Msg: "specification axiom does not hold: " + bad}
+		}
+		rn.rep.Count("axioms.checked", 1)
+		v.Steps = 1
+		return v
+	}
 	var c c05Case
 	func() {
 		defer func() {
@@ -1080,7 +1153,7 @@ func (rn *c05Runner) runCase(kc kit.Case) kit.Verdict {
 	if rn.passNo == 0 {
 		rn.first[kc.Index] = s
 	} else if prev, ok := rn.first[kc.Index]; ok && prev != s && c.Family != "roundtrip" {
-		bads = append(bads, &c05Bad{"C05:order-dependent:" + c.Family, fmt.Sprintf("into %s: first pass %s, second pass (other order) %s", describe(c.Fields), prev, s)})
+		bads = append(bads, &c05Bad{"C05:order-dependent", fmt.Sprintf("into %s: first pass %s, second pass (other order) %s", describe(c.Fields), prev, s)})
 	}
 	if len(bads) > 0 {
 		v.OK, v.Key, v.Msg = false, bads[0].Key, bads[0].Msg
@@ -1089,6 +1162,36 @@ func (rn *c05Runner) runCase(kc kit.Case) kit.Verdict {
 		}
 	}
 	return v
+}
+
+// c05LoadShard reads the ndjson case file like kit.LoadCases but decodes only the lines of this
+// shard (the thorough tier has several hundred thousand cases; every shard decoding all of them
+// costs more than replaying them).
+func c05LoadShard(path string, shard, shards int) ([]kit.Case, error) {
+	f, err := os.Open(path)
+	if err != nil {
+		return nil, err
+	}
+	defer f.Close()
+	var out []kit.Case
+	sc := bufio.NewScanner(f)
+	sc.Buffer(make([]byte, 1<<20), 1<<26)
+	i := 0
+	for sc.Scan() {
+		line := sc.Bytes()
+		if len(line) == 0 {
+			continue
+		}
+		if i%shards == shard {
+			var one kit.M
+			if err := json.Unmarshal(line, &one); err != nil {
+				return nil, fmt.Errorf("case %d: %v", i, err)
+			}
+			out = append(out, kit.Case{Index: i, Steps: []kit.M{one}})
+		}
+		i++
+	}
+	return out, sc.Err()
 }
 
 func TestVerifC05(t *testing.T) {
@@ -1101,7 +1204,8 @@ func TestVerifC05(t *testing.T) {
 	for _, e := range []string{"5", "300"} {
 		os.Setenv(c05EnvPrefix+e, e)
 	}
-	cases, err := kit.LoadCases(casesPath)
+	shard, shards := kit.EnvInt("VERIF_SHARD", 0), kit.EnvInt("VERIF_SHARDS", 1)
+	mine, err := c05LoadShard(casesPath, shard, shards)
 	if err != nil {
 		t.Fatal(err)
 	}
@@ -1110,13 +1214,6 @@ func TestVerifC05(t *testing.T) {
 		t.Fatal(err)
 	}
 	defer rep.Close()
-	shard, shards := kit.EnvInt("VERIF_SHARD", 0), kit.EnvInt("VERIF_SHARDS", 1)
-	var mine []kit.Case
-	for _, c := range cases {
-		if c.Index%shards == shard {
-			mine = append(mine, c)
-		}
-	}
 	rn := &c05Runner{rep: rep, first: map[int]string{}}
 	rt := router.NewRouter()
 	if err := rt.Handle(http.MethodPost, "/rt/:alphaKey", http.HandlerFunc(func(w http.ResponseWriter, r *http.Request) {
@@ -1134,7 +1231,7 @@ func TestVerifC05(t *testing.T) {
 
 	rng := rand.New(rand.NewSource(kit.Seed()*7919 + int64(shard)))
 	passes := 2
-	if len(mine) > 0 && strings.Contains(string(mine[0].Raw), `"family":"roundtrip"`) {
+	if len(mine) > 0 && kit.Str(mine[0].Steps[0]["family"]) == "roundtrip" {
 		passes = 1
 	}
 	bad := map[int]bool{}
